@@ -183,6 +183,8 @@ def main(run):
         g = lambda x, y: a * x * x + b * x * y + c * y * y + d
         for rep in range(2 if not thorough else 5):
             qx0, qy0 = rng.uniform(0.02, 0.2) * rng.choice([-1, 1]), rng.uniform(0.02, 0.2) * rng.choice([-1, 1])
+            if rep == 1:
+                qx0 = 0.0          # a data point on the qy axis (centre column of an odd detector grid); its neighbour is off-axis
             spar, sperp = rng.uniform(0.002, 0.03), rng.uniform(0.002, 0.03)
             data = empty_data2D(np.array([qx0, qx0 + 0.05]), np.array([qy0]), resolution=0.1)
             data.dqx_data = np.full(len(data.qx_data), spar); data.dqy_data = np.full(len(data.qx_data), sperp)
@@ -215,7 +217,59 @@ def main(run):
             else:
                 distinct.add(("2d", a, b, c, rep))
                 run.sample(dict(kind="2d", form=[a, b, c, d], dq_par=spar, dq_perp=sperp, errors=errs))
-    run.coverage.update(evaluations=evals, distinct_nontrivial=len(distinct), traces_validated_against_impl=0, input_distribution=stats)
+    # ------------------------------------------------------------------ 2-D cloud vs the Coq model (C04.Model.sample)
+    # every sample point of Pinhole2D.q_calc for data points in all quadrants and ON the axes (qx = 0, qy = 0)
+    from .common import fhex, flist
+    cases, metas = [], []
+    stats["cloud_points"] = 0
+    for acc in ("low", "med", "high", "xhigh")[: (4 if thorough else 3)]:
+        pts = [(rng.uniform(0.01, 0.2) * sx, rng.uniform(0.01, 0.2) * sy) for sx in (1, -1) for sy in (1, -1)]
+        pts += [(0.0, rng.uniform(0.02, 0.2)), (0.0, -rng.uniform(0.02, 0.2)), (rng.uniform(0.02, 0.2), 0.0), (-rng.uniform(0.02, 0.2), 0.0)]
+        qxs = np.array([p[0] for p in pts]); qys = np.array([p[1] for p in pts])
+        data = empty_data2D(np.array([0.01, 0.02]), np.array([0.01]), resolution=0.1)
+        n0 = len(pts)
+        data.qx_data = qxs; data.qy_data = qys; data.q_data = np.sqrt(qxs ** 2 + qys ** 2)
+        data.dqx_data = np.array([rng.uniform(0.002, 0.03) for _ in pts]); data.dqy_data = np.array([rng.uniform(0.002, 0.03) for _ in pts])
+        data.mask = np.zeros(n0, dtype=bool) if getattr(data, "mask", None) is not None else None
+        with np.errstate(all="ignore"):
+            res = Pinhole2D(data=data, accuracy=acc)
+            phi_q = np.arctan(qys / qxs)
+        nr, nphi = res.nr, res.nphi
+        nb = nr * nphi
+        QX = np.asarray(res.q_calc[0]).reshape(nb, n0); QY = np.asarray(res.q_calc[1]).reshape(nb, n0)
+        bs = res.nsigma / nr
+        # bin index b = j*nr + k : direction j, ring k  (dphi = (2 pi j/nphi).repeat(nr); r tiled per direction)
+        for i in range(n0):
+            smp = []
+            for b in range(nb):
+                j, k = divmod(b, nr)
+                r = bs / 2.0 + k * bs
+                a = j * 2.0 * math.pi / nphi
+                smp.append("(%s, %s, %s, %s, %s)" % (fhex(r), fhex(math.cos(a)), fhex(math.sin(a)), fhex(QX[b, i]), fhex(QY[b, i])))
+            cases.append("(MkCase %s %s %s %s %s %s [%s])" % (fhex(qxs[i]), fhex(qys[i]), fhex(res.dqx_data[i]), fhex(res.dqy_data[i]),
+                                                           fhex(math.cos(phi_q[i])), fhex(math.sin(phi_q[i])), "; ".join(smp)))
+            metas.append(dict(kind="2d-cloud", accuracy=acc, qx=float(qxs[i]), qy=float(qys[i]), dq_par=float(res.dqx_data[i]), dq_perp=float(res.dqy_data[i])))
+            stats["cloud_points"] += 1
+        # the ring weights
+        w = np.asarray(res.q_calc_weights)
+        want = np.tile(np.exp(-0.5 * (bs * np.arange(nr)) ** 2) - np.exp(-0.5 * (bs * (np.arange(nr) + 1)) ** 2), nphi)
+        evals += 1
+        if w.shape != want.shape or not np.allclose(w, want, rtol=1e-13, atol=0):
+            run.add(Finding("C04:2d-weights", "Pinhole2D %s: ring weights differ from exp(-(r-b/2)^2/2) - exp(-(r+b/2)^2/2)" % acc, dict(accuracy=acc)))
+    traces = 0
+    if cases and not run.proof_broken():
+        shards = ["From Coq Require Import List PrimFloat.\nImport ListNotations.\nFrom SM Require Import Base.Num C04.Model C04.Exec.\n"
+                  "Definition cases : list Case := [\n%s\n].\nEval vm_compute in (check_cases %s cases).\n" % (";\n".join(cases[i:i + 8]), fhex(1e-13)) for i in range(0, len(cases), 8)]
+        for si, (rc, vals, err) in enumerate(common.run_coq_shards(shards, run.scratch.sub("coq"), prefix="c04", jobs=8)):
+            if rc != 0 or not vals:
+                run.add(Finding("corr:C04:coq", "correspondence shard failed: %s" % err[-300:], {"correspondence": "C04.Exec.check_cases", "stderr": err[-1500:]}, no_input=True))
+                continue
+            traces += min(8, len(cases) - si * 8)
+            for idx in vals[0]:
+                m = metas[si * 8 + idx]
+                run.add(Finding("C04:2d-cloud", "Pinhole2D (%s) at (qx, qy) = (%.4g, %.4g): the sampling cloud is not the ellipse aligned with the q direction (Coq model C04.Model.sample)" % (
+                    m["accuracy"], m["qx"], m["qy"]), m))
+    run.coverage.update(evaluations=evals, distinct_nontrivial=len(distinct), traces_validated_against_impl=traces, input_distribution=stats)
     run.assumptions += ["exact smeared values by scipy.integrate.quad / dblquad (epsrel <= 1e-10)",
                         "the theorem gives the first-order bound in discrete form; the mean value theorem step (cell integral = m_j f(y_j)) and the Lipschitz constants of the test functions are not formalised: constants are measured numerically",
                         "the correspondence between the weight matrices and their Coq model is the C03 check"]
